@@ -28,7 +28,7 @@ Print Assumptions c04_call_site_orders_reach_the_builtins.
 Theorem c04_memory_orders_sufficient :
   let E := effective_params header_atomic_table code_params in
   lock_mo_ok E KSpin = true /\ lock_mo_ok E KSync = true /\ lock_mo_ok E KMutex = true /\
-  lock_mo_ok E KTry = true /\ once_mo_ok E = true.
+  lock_mo_ok E KTry = true /\ lock_mo_ok E KNest = true /\ lock_mo_ok E KNestTry = true /\ once_mo_ok E = true.
 Proof. exact effective_orders_sufficient. Qed.
 Print Assumptions c04_memory_orders_sufficient.
 
@@ -59,18 +59,54 @@ Proof.
 Qed.
 Print Assumptions lock_previous_holder_writes_visible.
 
-(* call_once: the body starts at most once; a caller that returns (or has returned from an earlier call and
-   calls again) finds it completed (exactly one run) and its effects visible; any number of racers, any number
-   of calls per racer *)
-Theorem call_once_runs_once_before_any_return : forall n calls sched t,
-  let s := exec osys (ostep code_params) (oinit n calls) sched in
-  (o_runs s <= 1)%nat /\
-  (returned (o_pc (o_thr s t)) = true \/ (0 < o_rets (o_thr s t))%nat ->
-   o_runs s = 1%nat /\ o_done s = 1 /\ o_seen (o_thr s t) = o_dver s /\ o_early s = 0%nat).
+(* a nested muggle_mutex_lock by the holder never returns (muggle_mutex_t is a default pthread mutex, see
+   mutex_is_a_default_pthread_mutex): while thread 0 of the nested client is at that call it holds the mutex, the
+   call is enabled under no schedule choice, nobody else holds and no overlap was ever observed.  The
+   implementation shows this as the scheduler's DEADLOCK event, which the nested scenarios expect *)
+Theorem nested_mutex_lock_by_owner_never_returns : forall k n it sched ch,
+  let s := exec lsys (lstep code_params true) (linit k n it) sched in
+  l_pc (l_thr s 0%nat) = LNest ->
+  lstep code_params true s 0%nat ch = None /\ l_lock s = 1 /\
+  (forall u, holds (l_pc (l_thr s u)) = true -> u = 0%nat) /\ l_overlaps s = 0%nat.
+Proof. exact (nested_lock_by_owner_is_stuck code_params). Qed.
+Print Assumptions nested_mutex_lock_by_owner_never_returns.
+
+(* mutex.c, pthread branch, re-translated from the C text on this run: destroy / lock / trylock / unlock make
+   exactly one pthread call and map its result 0 to MUGGLE_OK and EVERY other value to their (non-zero) error
+   code; init (which may prepare an attribute object first) returns MUGGLE_OK exactly when its pthread calls
+   return 0 *)
+Theorem mutex_result_mapping_matches_model :
+  (code_MUGGLE_OK = 0 /\ code_MUGGLE_ERR_SYS_CALL <> 0 /\ code_MUGGLE_ERR_ACQ_LOCK <> 0) /\
+  forall rc,
+  fst (gen_mutex_init 0 rc) = fst (mres code_MUGGLE_ERR_SYS_CALL rc) /\
+  gen_mutex_destroy 0 rc = mres code_MUGGLE_ERR_SYS_CALL rc /\
+  gen_mutex_lock 0 rc = mres code_MUGGLE_ERR_SYS_CALL rc /\
+  gen_mutex_trylock 0 rc = mres code_MUGGLE_ERR_ACQ_LOCK rc /\
+  gen_mutex_unlock 0 rc = mres code_MUGGLE_ERR_SYS_CALL rc.
+Proof. exact (conj mutex_codes gen_mutex_eq). Qed.
+Print Assumptions mutex_result_mapping_matches_model.
+
+(* .. and muggle_mutex_init succeeds and creates a mutex of the default (non-recursive, non-error-checking)
+   pthread type, as observed by the wrapped pthread_mutex_init on this run: the type the lock model assumes *)
+Theorem mutex_is_a_default_pthread_mutex :
+  code_mutex_init_rc = code_MUGGLE_OK /\
+  (code_mutex_type = pthread_mutex_normal \/ code_mutex_type = pthread_mutex_default).
+Proof. exact mutex_type_default. Qed.
+Print Assumptions mutex_is_a_default_pthread_mutex.
+
+(* call_once, any number of once-flags in flight, any number of racers, any call script per racer (the same flag
+   may be called again after READY): for every flag f the body starts at most once; a caller that is returning
+   from a call on f, or has completed one earlier (whatever it is calling now), finds f's run completed
+   (exactly one run) and its effects visible *)
+Theorem call_once_runs_once_before_any_return : forall f n scripts sched t,
+  let s := exec osys (ostep code_params) (oinit n scripts) sched in
+  (o_runs s f <= 1)%nat /\
+  ((o_cur (o_thr s t) = f /\ returned (o_pc (o_thr s t)) = true) \/ (0 < o_rets (o_thr s t) f)%nat ->
+   o_runs s f = 1%nat /\ o_done s f = 1 /\ o_seen (o_thr s t) f = o_dver s f /\ o_early s f = 0%nat).
 Proof.
-  intros n calls sched t s. split.
-  - exact (once_at_most_once code_params n calls sched once_mo_ok_code).
-  - exact (once_no_early_return code_params n calls sched t once_mo_ok_code).
+  intros f n scripts sched t s. split.
+  - exact (once_at_most_once code_params f n scripts sched once_mo_ok_code).
+  - exact (once_no_early_return code_params f n scripts sched t once_mo_ok_code).
 Qed.
 Print Assumptions call_once_runs_once_before_any_return.
 
